@@ -192,6 +192,7 @@ def base_matrix(seed):
         dict(kind='gauss', n_batch=2, n_live=12, n_update=5, n_like_new_bound=30, blob='bool2', seed=23 + s,
              mseed=s, n_points_min=3),
         dict(kind='wrap', periodic=[0], n_networks=2, blob='bytes', prior='affine', seed=24 + s, mseed=s),
+        dict(kind='gauss', prior='Prior', vectorized=True, blob='float', n_batch=5, seed=25 + s, mseed=s),   # dict + vectorised
     ]
 
 
@@ -226,6 +227,24 @@ def cellworld_configs(seed, scratch, n):
         cfgs.append(dict(kind='cells', K=3, world=w, n_live=[4, 6, 8][i % 3], n_batch=[2, 3, 1][i % 3], n_update=3,
                          n_like_new_bound=12, n_points_min=3, seed=500 + seed * 13 + i, mseed=seed, history=hist,
                          blob=['none', 'int', 'multi'][i % 3]))
+    return cfgs, res
+
+
+def resume_every_batch_configs(seed, scratch):
+    """Histories that construct a NEW sampler from the checkpoint after every single batch (traced, so every
+    Resume step and everything after it is validated), on geometries where transfer candidates stay alive for
+    several batches: a scripted non-nested world and the funnel."""
+    worlds, res = gen_worlds(2, seed + 17, scratch)
+    hist = []
+    for k in range(28):
+        hist += [['run', dict(n_eff=30, n_like_rel=1, discard_exploration=True, n_shell=3, f_live=0.3)], ['resume']]
+    hist += [['run', dict(n_eff=30, n_like_rel=40, discard_exploration=True, n_shell=3, f_live=0.3)], ['posterior']]
+    cfgs = [dict(kind='cells', K=3, world=w, n_live=6, n_batch=2, n_update=3, n_like_new_bound=10, n_points_min=3,
+                 seed=700 + seed * 3 + i, mseed=seed, history=hist, blob=['multi', 'int'][i % 2], filepath=True)
+            for i, w in enumerate(worlds)]
+    cfgs.append(dict(kind='funnel', n_dim=2, n_live=24, n_batch=3, n_points_min=4, seed=710 + seed, mseed=seed, blob='multi',
+                     filepath=True, history=[x for k in range(40) for x in (['run', dict(n_eff=40, n_like_rel=1, discard_exploration=False)], ['resume'])]
+                     + [['posterior']]))
     return cfgs, res
 
 
@@ -358,6 +377,9 @@ def check(prop, tier, seed):
         wc, wres = cellworld_configs(seed, scratch, 10 if tier == 'quick' else 120)
         rep.add_tlc(wres, 'CellWorld.tla/simulate')
         cfgs += wc
+        rc, rres = resume_every_batch_configs(seed, scratch)
+        rep.add_tlc(rres, 'CellWorld.tla/simulate (resume worlds)')
+        cfgs += rc
         if tier == 'thorough':
             for r in range(1, 8):
                 cfgs += [dict(c, history=FULL) for c in base_matrix(seed + 100 * r)]
